@@ -4,6 +4,8 @@ import json, os
 ROOT = os.path.dirname(os.path.dirname(os.path.abspath(__file__)))
 TECH = "bounded symbolic execution of go/ssa + SMT (z3; cvc5 cross-check in thorough), native replay of counterexamples"
 claimed = {
+ "C07": dict(level="Bounded symbolic model checking of the real Session.processBuffer (with bytes.Buffer, pooled messages and the stream coder interpreted from source) in the inductive two-segment form: for every byte stream within the bound, every cut and every maximum message size, the deliveries, the buffered remainder and the error outcome of processing S[:c] then S[c:] equal those of processing S at once, and both equal a reference framer written from RFC 8323 §3.2 (oversize frames: error as soon as the header is complete, nothing of or after them delivered).",
+             note="Trusted: gosym encoder (native witnesses), z3/cvc5, the harness reference framer. Stream length bound in evidence; Run's read loop covered by the induction argument only.", ref="DESIGN.md §4 C07"),
  "C11": dict(level="Context-bounded symbolic model checking of the real ReceivedMessageReader (loop, TryToReplaceLoop) with harness handlers that block on nested requests exactly as Conn.doInternal does: exactly-once processing, arrival order while handlers do not block, no stall (any state in which the pusher or a nested wait can never proceed is reported as deadlock) for every queue size and interleaving within the bounds; counterexample schedules and select choices are forced on the native build.",
              note="Trusted: gosym encoder/scheduler model (concurrent witnesses replayed natively), z3. Claimed on the reader component; socket-to-queue hand-off and transports outside.", ref="DESIGN.md §4 C11"),
  "C16": dict(level="Context-bounded symbolic model checking of the real limiter (with the real x/sync semaphore, container/list and context interpreted from source): 3-4 request goroutines, limits from {1,2}^2, a controller thread deciding every order of finish/cancel events; asserts the total and per-endpoint limits at every admission, arrival-order admission per path, cancelled waiters returning their context error without disturbing slots, and an idle limiter (empty queues, full semaphore, immediate admission) at the end. Counterexample schedules are forced on the native build.",
